@@ -3,6 +3,7 @@
 registration methods), suspends a carrier coroutine inside them, extracts, and compares the Context tree with
 the specification's Unfold.  stdlib-only.   usage: tree_driver.py <cases.json> <out.json>"""
 import contextlib
+import io
 import json
 import sys
 import types
@@ -31,6 +32,15 @@ class PM:
 
     def method(self, *exc):
         return False
+
+
+class CPM(io.StringIO):
+    """a plain manager whose __enter__ / __exit__ are implemented in C (io's): registered on an exit stack it is still
+    enter_context(manager) / push(manager), not push(some method)"""
+
+    def __init__(self, i):
+        io.StringIO.__init__(self)
+        self.i = i
 
 
 class APM:
@@ -93,7 +103,7 @@ class Env:
     def build(self, n, root_exiting=False):
         k = n["k"]
         if k == "plain":
-            o = APM(n["id"], suspend_in_exit=root_exiting or n.get("suspend", False)) if n["async"] else PM(n["id"])
+            o = APM(n["id"], suspend_in_exit=root_exiting or n.get("suspend", False)) if n["async"] else (CPM if n["id"] % 3 == 1 else PM)(n["id"])
         elif k == "gcm":
             o = self.build_gcm(n, root_exiting)
         else:
